@@ -124,7 +124,7 @@ func (fe *FuncEnc) newFrame(fn *ssa.Function, parent *Frame, prefix string) *Fra
 		out: map[*ssa.BasicBlock]*State{}, reach: map[*ssa.BasicBlock]Term{}, edgeCond: map[[2]int]Term{},
 		parent: parent, prefix: prefix, params: map[string]Term{}, ptypes: map[string]types.Type{},
 		headerSt: map[*ssa.BasicBlock]*State{}, headerV0: map[*ssa.BasicBlock][]Term{}, labelCnt: map[string]int{},
-		iterOf: map[*ssa.BasicBlock]Term{}, mapRange: map[ssa.Value]*mapRangeInfo{}}
+		iterOf: map[*ssa.BasicBlock]Term{}, mapRange: map[ssa.Value]*mapRangeInfo{}, headerFlag: map[*ssa.BasicBlock]Term{}}
 }
 
 // merge in-edges into (reach, state).
@@ -273,7 +273,10 @@ func (fe *FuncEnc) execBlock(f *Frame, b *ssa.BasicBlock, st *State, reach Term,
 			if f.mon != nil {
 				fe.monReturn(f, st, reach, res, x.Pos())
 			}
-			f.rets = append(f.rets, retInfo{reach: reach, st: st, res: res, pos: x.Pos()})
+			f.rets = append(f.rets, retInfo{block: b, reach: reach, st: st, res: res, pos: x.Pos()})
+			if f.parent == nil {
+				fe.cover(fmt.Sprintf("return@%s", fe.eng.relPos(x.Pos())), reach, x.Pos())
+			}
 		case *ssa.Panic:
 			fe.emit("safety.panic", fe.srcLabel(x.Pos(), "call"), reach, tBool(false), "explicit panic", x.Pos())
 		default:
@@ -429,6 +432,9 @@ func (fe *FuncEnc) enterLoop(f *Frame, li *loopInfo, reach Term, st *State) (Ter
 		f.headerV0[h] = v0
 	}
 	f.headerSt[h] = st.clone()
+	if lc != nil && lc.At == "interpreted" {
+		f.headerFlag[h] = fe.comp(st, "G_utils_HadRuntimeError", SBool)
+	}
 	return reach, st
 }
 
@@ -459,6 +465,10 @@ func (fe *FuncEnc) backEdge(f *Frame, li *loopInfo, from *ssa.BasicBlock, cond T
 	}
 	if lc == nil {
 		return
+	}
+	if hf, ok := f.headerFlag[h]; ok {
+		fe.emit("effect.E3", fmt.Sprintf("loop%d", li.ord), cond, tNot(hf), "C06: an interpreted loop does not go round again in an iteration that began after a runtime error", pos)
+		fe.obls[len(fe.obls)-1].Props = []string{"C06"}
 	}
 	names := fe.loopNames(f, li, phiVal, st)
 	for _, inv := range lc.Invariants {
